@@ -165,7 +165,8 @@ func c17Message(cs *drv.Case, b []byte) {
 	default:
 		acc[thrift.INVALID_DATA] = true
 		if len(b) >= 8 && b[4]&0x80 != 0 {
-			acc[thrift.NEGATIVE_SIZE] = true // negative method-name length: implementations differ
+			// negative method-name length: the cause is "negative size" (the buffer is not too small)
+			acc = map[int32]bool{thrift.NEGATIVE_SIZE: true}
 		}
 	}
 	if !acc[id] {
